@@ -1,8 +1,7 @@
 (** C19 -- property file.  Contains only: instantiation lemmas on the definitions regenerated from
     /repo's and the installed PySpark's sources (Gen.C19Sf / Gen.C19Ps), the full statement, what is
-    proved (closed by [exact] of a generic theorem), non-vacuity examples, and Print Assumptions.
-    What is refuted of the full statement is in C19_refuted.v (compiled separately: it stops holding, and must
-    not raise an alarm, on the day sqlframe removes the deviation). *)
+    proved (closed by [exact] of a generic theorem), non-vacuity examples, and Print Assumptions.  Nothing is refuted any more: the two listed deviations
+    were repaired in /repo (findings/C19.known.json, status fixed). *)
 From Coq Require Import ZArith String List Bool PrimFloat.
 From SF Require Import C19.PyVal C19.Script.
 From Gen Require Import C19Sf C19Ps.
@@ -11,35 +10,23 @@ Open Scope string_scope.
 
 (* ---- instantiation obligations (re-checked against both sources on every run) ---------------- *)
 
-Ltac dec_id H :=
-  erewrite comp1_dec_id;
-  [ | reflexivity
-    | (let x := fresh in let Hx := fresh in intros x Hx; rewrite isinstance_dec, Hx; reflexivity)
-    | exact H ].
-
-(** every Row method of sqlframe is the same function of the CPython primitives and of the methods it
-    dispatches to as PySpark's, provided no Decimal is placed directly into a Row *)
-Lemma row_body_rel : forall M1 M2, rel M1 M2 -> rel (row_body_sf M1) (row_body_ps M2).
+(** every Row method of sqlframe (and _create_row) is the same function of the CPython primitives and of
+    the methods it dispatches to as PySpark's -- unconditionally (since the repair "Row keeps the values it
+    is given", sqlframe no longer converts a Decimal placed into a Row to float) *)
+Lemma row_body_rel : forall M1 M2, relu M1 M2 -> relu (row_body_sf M1) (row_body_ps M2).
 Proof.
   intros M1 M2 R.
   constructor;
     cbn [row_body_sf row_body_ps m_new m_create_row m_call m_asDict m_conv m_contains m_getitem
          m_getattr m_setattr m_reduce m_repr]; intros.
-  all: try solve [cong R].
-  (* __new__ / _create_row: the Decimal->float comprehension is the identity when no Decimal is placed
-     directly into the Row (hypothesis of these two clauses of [rel]) *)
-  all: repeat match goal with
-              | |- (if ?c then _ else _) = (if ?c then _ else _) => destruct c; [try reflexivity | try reflexivity]
-              end;
-       cbn [dict_values bind];
-       match goal with H : no_top_dec _ = true |- _ => try dec_id H end;
-       cbn [bind py_list py_tuple as_iter]; cong R.
+  all: solve [cong R].
 Qed.
 
 (** every helper of sqlframe.testing.utils is the same function as PySpark's *)
-Lemma cmp_body_rel : forall M1 M2 C1 C2, rel M1 M2 -> relc C1 C2 -> relc (cmp_body_sf M1 C1) (cmp_body_ps M2 C2).
+Lemma cmp_body_rel : forall P M1 M2 C1 C2,
+  relp P M1 M2 -> relc C1 C2 -> relc (cmp_body_sf M1 C1) (cmp_body_ps M2 C2).
 Proof.
-  intros M1 M2 C1 C2 R RC.
+  intros P M1 M2 C1 C2 R RC.
   constructor;
     cbn [cmp_body_sf cmp_body_ps c_compare_vals c_compare_rows c_assert_rows_equal c_compare_schemas
          c_compare_structfields c_compare_datatypes c_assertSchemaEqual c_assertDataFrameEqual]; intros.
@@ -74,18 +61,19 @@ Definition C19_full : Prop :=
   (forall n k s, run false (Rsf n) k s = run false (Rps n) k s) /\
   (forall n m, relc (Csf n m) (Cps n m)).
 
-(** domain of the Row half: guarded evaluation never has to place a Decimal directly into a Row *)
-Definition in_domain (n k : nat) (s : sx) : bool := negb (is_ood (run true (Rps n) k s)).
+(** the Row half: all scripts, all budgets *)
+Theorem C19_rows_hold : forall n k s, run false (Rsf n) k s = run false (Rps n) k s.
+Proof. exact (script_equal_all row_body_sf row_body_ps row_body_rel). Qed.
+Print Assumptions C19_rows_hold.
 
-Theorem C19_partial_rows :
-  forall n k s, in_domain n k s = true -> run false (Rsf n) k s = run false (Rps n) k s.
-Proof. exact (script_equal_dom row_body_sf row_body_ps row_body_rel). Qed.
-Print Assumptions C19_partial_rows.
-
-(** the helper half holds without restriction: all inputs, checkRowOrder, rtol, atol, budgets *)
+(** the helper half: all inputs, checkRowOrder, rtol, atol, budgets *)
 Theorem C19_helpers_hold : forall n m, relc (Csf n m) (Cps n m).
-Proof. exact (helpers_equal row_body_sf row_body_ps cmp_body_sf cmp_body_ps row_body_rel cmp_body_rel). Qed.
+Proof. exact (helpers_equal allok row_body_sf row_body_ps cmp_body_sf cmp_body_ps row_body_rel (cmp_body_rel allok)). Qed.
 Print Assumptions C19_helpers_hold.
+
+Theorem C19_holds : C19_full.
+Proof. exact (conj C19_rows_hold C19_helpers_hold). Qed.
+Print Assumptions C19_holds.
 
 Corollary assert_df_equal_verdict : forall n m actual expected checkRowOrder rtol atol,
   c_assertDataFrameEqual (Csf n m) actual expected checkRowOrder rtol atol
@@ -106,9 +94,6 @@ Definition ex_script : sx :=
   SList [ SRepr (SPickle (SNew [] [("a", SLit (VInt 1)); ("b", SNew [] [("c", SLit (VList [VFloat 0x1.8p+0 "1.5"; VNone]))])]));
           SAsDict (SCall (SNew [SLit (VStr "x"); SLit (VStr "y")] []) [SLit (VInt 1); SLit (VDict [(VStr "k", VInt 2)])]) true;
           SContains (SLit (VStr "x")) (SNew [] [("x", SLit VNone)]) ].
-
-Example C19_domain_nonempty : in_domain 30 30 ex_script = true.
-Proof. vm_compute. reflexivity. Qed.
 
 Example C19_example_value :
   run false (Rsf 30) 30 ex_script
@@ -131,3 +116,22 @@ Example C19_helper_rejects_outside_tolerance :
      (VList [row_a (VFloat 0x1.1p+0 "1.0625")]) (VBool false) f1e5 f1e8 = Raise ERowsDiffer.
 Proof. vm_compute. reflexivity. Qed.
 
+
+(* ---- former refutation witnesses (defects repaired in /repo): they now agree ------------------------ *)
+
+Definition dec15 : pyval := VDec "Decimal('1.5')" 0x1.8p+0 "1.5".
+
+(** Row(x=Decimal('1.5')) keeps the Decimal under both implementations *)
+Example C19_decimal_kept :
+  run false (Rsf 10) 10 (SNew [] [("x", SLit dec15)]) = OVal (VRow (Some (VList [VStr "x"])) [dec15])
+  /\ run false (Rps 10) 10 (SNew [] [("x", SLit dec15)]) = OVal (VRow (Some (VList [VStr "x"])) [dec15]).
+Proof. split; vm_compute; reflexivity. Qed.
+
+(** Decimal('1.000001') against 1.0 is rejected by both helpers (Decimal != float), each building its own rows *)
+Definition dec1000001 : pyval := VDec "Decimal('1.000001')" 0x1.000010c6f7a0bp+0 "1.000001".
+Definition rows_of (o : out) : pyval := match o with OVal v => VList [v] | _ => VList [] end.
+Example C19_decimal_verdict_same :
+  c_assertDataFrameEqual (Csf 12 12) (rows_of (run false (Rsf 12) 12 (SNew [] [("x", SLit dec1000001)])))
+      (rows_of (run false (Rsf 12) 12 (SNew [] [("x", SLit (VFloat 1 "1.0"))]))) (VBool false) f1e5 f1e8
+  = Raise ERowsDiffer.
+Proof. vm_compute. reflexivity. Qed.
